@@ -442,8 +442,9 @@ Proof.
   - (* PidExistsF *)
     cbn [gupd]. cbn [step] in Hs'.
     destruct (n <? 0); cbn [fst] in Hs'; [subst s'; exact HI|].
-    destruct (_ || _); cbn [fst] in Hs'; [|subst s'; exact HI].
-    destruct (pids_sorted (listing (tbl s))) as [[l low]| |]; cbn [fst] in Hs'; subst s'; exact HI.
+    destruct (n =? 0); cbn [fst] in Hs';
+      [destruct (pids_sorted (listing (tbl s))) as [[l low]| |]; cbn [fst] in Hs'; subst s'; exact HI|].
+    destruct (_ && _); cbn [fst] in Hs'; subst s'; exact HI.
 Qed.
 
 Lemma Inv_init valid : Inv valid (init, fun _ => gh_none).
